@@ -88,6 +88,8 @@ def cases(d):
     if tk == "enum" and d.chance(40):
         vals = [m[1] for m in enums[t["enum"]]["members"]]
         cp["ignore"] = [{"name": "ig0", "items": [d.choice(vals)]}]
+    if tk != "enum" and d.chance(25):
+        cp["target_style"] = "callable"
     abm = d.choice([64, 1, 2, 3, 4, 5, 8])
     iff = d.choice([None, None, "field", "callable"])
     if iff:
@@ -204,6 +206,8 @@ def body(case, acc):
         acc.label("has illegal bins")
     if cp.get("iff"):
         acc.label("iff:" + list(cp["iff"])[0])
+    if cp.get("target_style"):
+        acc.label("target:" + cp["target_style"])
     for b in cp.get("bins") or []:
         acc.label("bin kind:" + b["kind"] + ("" if b["kind"] == "bin" else (":n" if b.get("n") else ":unbounded")))
     return vios
